@@ -75,6 +75,23 @@ def extract_identities(f: Func, opvars: Set[str]):
     governed by an operator test and a literal-operand test."""
     from ..index import parent
 
+    # the two operand locals are recognised by what they are computed from (`<x> = simplify(e.lhs)`),
+    # not by their names; they are mapped back to the canonical names lhs / rhs
+    side_of: Dict[str, str] = {"lhs": "lhs", "rhs": "rhs", "l": "l", "r": "r"}
+    for n in f.body_nodes():
+        if isinstance(n, ast.Assign) and len(n.targets) == 1 and isinstance(n.targets[0], ast.Name):
+            for k in ast.walk(n.value):
+                if isinstance(k, ast.Attribute) and k.attr in ("lhs", "rhs") and isinstance(k.value, ast.Name) and k.value.id in {o.split(".")[0] for o in opvars}:
+                    side_of[n.targets[0].id] = k.attr
+                    break
+
+    def canon_names(t: ast.AST) -> ast.AST:
+        t2 = ast.parse(ast.unparse(t), mode="eval").body if isinstance(t, ast.expr) else t
+        for k in ast.walk(t2):
+            if isinstance(k, ast.Name) and k.id in side_of:
+                k.id = side_of[k.id]
+        return t2
+
     for n in f.body_nodes():
         if not isinstance(n, ast.Return) or n.value is None:
             continue
@@ -87,7 +104,7 @@ def extract_identities(f: Func, opvars: Set[str]):
                 o = _ops_in_test(par.test, opvars)
                 if o:
                     ops = ops or o
-                cs = _const_side(par.test)
+                cs = _const_side(canon_names(par.test))
                 if cs and cs[0] in ("lhs", "rhs", "l", "r"):
                     sides.append(cs)
             p = par
@@ -100,7 +117,7 @@ def extract_identities(f: Func, opvars: Set[str]):
             for op in ops:
                 yield op, "lhs", val, kind, n
             continue
-        kind = _result_kind(n.value, side)
+        kind = _result_kind(canon_names(n.value), side)
         if kind is None or kind == "self":
             continue
         for op in ops:
